@@ -229,9 +229,18 @@ def run_cooc_history(case):
     kind = case["kind"]
     v = {}
     if kind == "tree":
-        mk_in = lambda docs: [make_item([-1] + list(range(len(s) - 1)), list(s)) for s in docs if s]
+        fmt = case.get("fmt", "csr")
+        def mk_in(docs):
+            out = []
+            for s in docs:
+                if s:
+                    A, labels = make_item([-1] + list(range(len(s) - 1)), list(s))
+                    out.append((A.asformat(fmt), labels))
+            return out
         cls = V.LabelledTreeCooccurrenceVectorizer
         base_kw = dict(window_radius=2)
+        if case.get("ignore"):
+            base_kw["ignored_tokens"] = {"b"}
     else:
         ckind = kind if kind in ("token", "timed", "multiset", "ngram") else "token"
         mk_in = lambda docs: make_corpus(ckind, docs, [[float(j) for j in range(len(d))] for d in docs])
@@ -332,8 +341,15 @@ def _cooc_history_cases(tier):
                 for d1, d2, d3 in docsets:
                     if kind == "tree" and dictionary:
                         continue
-                    yield {"kind": kind, "dictionary": dictionary, "mask": mask, "nullify": nullify,
-                           "docs1": d1, "docs2": d2, "docs3": d3, "depth": 2 if tier == "quick" else 3}
+                    base = {"kind": kind, "dictionary": dictionary, "mask": mask, "nullify": nullify,
+                            "docs1": d1, "docs2": d2, "docs3": d3, "depth": 2 if tier == "quick" else 3}
+                    if kind == "tree":
+                        # adjacency matrices in every sparse format, with and without a pruning setting that removes nodes
+                        for fmt in ("csr", "csc", "coo", "lil"):
+                            for ignore in (False, True):
+                                yield dict(base, fmt=fmt, ignore=ignore)
+                    else:
+                        yield base
 
 
 # ---------------------------------------------------------------- fault injection into block-wise fits
